@@ -195,7 +195,15 @@ def run(ctx, rep):
         import c18
         dims = c18.dimension_analysis(facts.fn("javadoc::find_content_string")["body"])
         bad = [u[2] for u in dims["uses"] if [d for d in u[3] if d not in ("byte", "const")] or "byte" not in u[3]]
-        return not bad, "byte/char dimension typing holds" if not bad else "values that are not provably byte offsets used as byte offsets: %r" % bad
+        if bad:
+            return False, "values that are not provably byte offsets used as byte offsets: %r" % bad
+        # the state-machine invariants the reviewed entries rest on, decided on the extracted transducer (C18 K0)
+        import scanner
+        try:
+            probs = scanner.slice_safety(scanner.extract(facts))
+        except Exception as e:
+            probs = ["scanner not extractable (fail closed): %s" % e]
+        return not probs, "byte/char dimension typing holds and the extracted scanner table keeps start <= end on character boundaries (C18 K0)" if not probs else "; ".join(probs)
 
     roots = ["validation::check_container", "diagnostic::expected_token_str"] + [c for c in facts.closures_of("validation::check_methods")]
 
@@ -294,7 +302,7 @@ def run(ctx, rep):
         okk = okk and len(ins) == 1 and ins[0][2][1] == "id" and isinstance(ins[0][2][2], tuple) and dict(ins[0][2][2][3]).get(0) == "id" and p.exit == "return"
     rep.check(okk, "K1", "C01|K1", cfg.where(facts.fn(P + "add_content")), "add_content stores, on every path, exactly one result under the caller's id, tagged with that id", sample={"paths": len(pa)})
     fv = facts.fn("validation::validate")
-    chain = [(callee_info(t).get("resolved") or callee_info(t)["def"]).rsplit("::", 1)[1] for _, t in sorted(cfg.call_sites(fv["body"], lambda c: True))]
+    chain = [(callee_info(t).get("resolved") or callee_info(t)["def"]).rsplit("::", 1)[1] for _, t in sorted(cfg.call_sites(fv["body"], lambda c: "iter::" in c or "IntoIterator" in c or "Iterator" in c))]
     rep.check(chain == ["into_iter", "map", "collect"], "K3", "C01|K3", cfg.where(fv), "validation::validate must map every stored entry to exactly one result: into_iter().map(..).collect(); extracted chain %r" % (chain,), sample={"chain": chain})
     # K2 : struct update in the per-file closure (C03 S6 struct-update)
     import c03
